@@ -632,6 +632,7 @@ TOP:
 	case *Object:
 		_ = root.assureType(obj, tt)
 		if fd = tt.GetField(field.Name); fd != nil {
+			verifYield("resolveReflect.fd")
 			fd.mu.Lock()
 			if len(fd.goField) == 0 && fd.method == nil {
 				err = root.regField(tt, fd, field.Name)
@@ -657,6 +658,7 @@ TOP:
 		return
 	}
 	if fd != nil {
+		verifYield("resolveReflect.use")
 		fd.mu.Lock()
 		goField := fd.goField
 		method := fd.method
